@@ -15,6 +15,16 @@ for l in open("/verif/properties.jsonl"):
     if p["id"] == pid:
         prop = p
 prop = {k: prop[k] for k in ("id", "title", "statement", "quantifier", "why_tests_cant", "anchors")}
+avoid = ""
+if suf:
+    import glob
+    prev = []
+    for mp in sorted(glob.glob("/verif/seeded/%s-seed*/meta.json" % pid)):
+        m = json.load(open(mp))
+        if m.get("what"):
+            prev.append("- " + m["what"] + " (" + (m.get("files") or "").strip().split("|")[0].strip() + ")")
+    if prev:
+        avoid = "\n\nOther people have already produced the following changes for this property; yours must be DIFFERENT (another site and another mechanism, not a variation of these):\n" + "\n".join(prev) + "\n"
 print(f"""You are working on google/mtail (Go), a log-tailing daemon that compiles a small DSL to bytecode, runs it in a VM per log line and exports metrics. You have your own scratch git worktree of the repository at {wt} — work ONLY there. Never read or write /repo or /verif. The sandbox is offline; for every shell call first run:
   export GOFLAGS=-mod=mod GOPROXY=off GOSUMDB=off GOTOOLCHAIN=local
 The full existing test suite is: cd {wt} && go test -vet=off -count=1 -timeout 25m ./...   (takes a few minutes). NOTE: on the unchanged worktree exactly two subtests fail for a reason unrelated to you (internal/mtail/testdata/anonymised_dhcpd_log is an empty file in this snapshot): TestExamplePrograms/examples/dhcpd... and TestFilePipeStreamComparison/examples/dhcpd... in ./internal/mtail — 'passing the suite' means: no failures other than these two pre-existing ones.
@@ -23,6 +33,7 @@ Here is a semantic property that mtail is supposed to satisfy:
 
 {json.dumps(prop, indent=1)}
 
+{avoid}
 Your task: write a change to mtail's non-test Go source that BREAKS this property while (a) still compiling and (b) still passing the ENTIRE existing test suite, unedited (run it and confirm; do not edit or delete existing tests). The change should look like a realistic regression — a plausible refactoring slip, 'optimisation' or off-by-one that a maintainer could make — and it must need something SPECIFIC to manifest: a particular interleaving, a fault at a particular point, a multi-step sequence of operations, an unusual input, or two cooperating sites that each look fine alone. It must NOT be something ordinary use would expose at once (e.g. do not simply make a function always return wrong results). Keep the change small (a few lines to a few dozen lines).
 
 Also write a demonstration: a new Go test file (new file, e.g. zz_seed_demo_test.go in the appropriate package directory) or small program that FAILS with your change and PASSES without it. Verify both directions yourself (save your change with `git diff > {out}/patch.diff`, revert with `git checkout -- .`, re-apply with `git apply {out}/patch.diff`; NEVER use `git stash`: the stash is shared between all worktrees of the repository and other people are working in sibling worktrees). The demonstration must be deterministic (fails every time with the change).
